@@ -32,6 +32,11 @@ FAULT = [  # (kind, pad, cap, fault kind, kmax, programs)  - post-fault operatio
     ('cq', 132, 0, 'ctor', 4, [','.join('push:%d' % (100 + i) for i in range(12)) + ',' + ','.join(['try_pop'] * 13)]),
     ('bq', 132, 14, 'ctor', 3, [','.join('try_push:%d' % (100 + i) for i in range(12)) + ',' + ','.join(['try_pop'] * 13)]),
     ('cq', 60, 0, 'ctor', 12, [','.join('push:%d' % (100 + i) for i in range(26)) + ',' + ','.join(['try_pop'] * 27)]),
+    # the assignment of the popped item throws (pop / try_pop): the slot is consumed, so a push blocked on a full queue must be woken and later calls must not hang
+    ('bq', 132, 1, 'assign', 2, ['push:11,push:12,push:13', 'wpop,pop,pop']),
+    ('bq', 4, 1, 'assign', 2, ['push:11,push:12', 'wtry_pop,pop,try_pop']),
+    ('bq', 60, 2, 'assign', 3, ['push:11,push:12,push:13', 'push:21', 'wpop,wtry_pop,pop,pop']),
+    ('cq', 132, 0, 'assign', 3, ['push:11,push:12,push:13,try_pop,try_pop,try_pop,try_pop']),
     ('cq', 132, 0, 'ctor', 3, [','.join('push:%d' % (100 + i) for i in range(6)), ','.join('push:%d' % (200 + i) for i in range(6)), ','.join(['try_pop'] * 13)]),
 ]
 
